@@ -398,10 +398,14 @@ def is_cocircular(
 
     """
     if a.dim == 1:
-        return np.isreal(crossratio(a, b, c, d))
+        cr = crossratio(a, b, c, d)
+        return np.isclose(cr, np.real(cr), rtol, atol)
 
-    elif a.dim > 2:
+    coplanar = True
+    if a.dim > 2:
         e = join(a, b, c)
+        # a point outside of the plane of a, b and c is not on their circle (its projection into the plane might be)
+        coplanar = e.contains(d)
         basis = e.basis_matrix
         a = a._matrix_transform(basis)
         b = b._matrix_transform(basis)
@@ -410,7 +414,7 @@ def is_cocircular(
 
     i = crossratio(a, b, c, d, I)
     j = crossratio(a, b, c, d, J)
-    return np.isclose(i, j, rtol, atol)
+    return coplanar & np.isclose(i, j, rtol, atol)
 
 
 def is_perpendicular(
